@@ -8,7 +8,12 @@ import Hgxv.Model.C09
   `hye <N,E|-> <hyperedges as natss>`                -> matrix of `hye_list_to_binary_incidence`, or `rej`
   `tensor N`                                           -> values in row-major order, or `rej`
   `tload <times> <edges as natss> <weights as rats>`  -> `ok`        (temporal records)
-  `ttimes` | `tadj t` | `tmap t` | `tadjord d t`  -/
+  `ttimes` | `tadj t` | `tmap t` | `tadjord d t`
+  extension round (loops over the orders):
+  `maxord`                      -> `max_order()` or `rej`
+  `incall k` | `lapall f`       -> `d=matrix|d=matrix...` for `d = 1..max_order` (`empty` for none), or `rej`
+  `mlap <sigmas as rats> ow dw` -> matrix | `zero` (the integer 0) | `undef` (1/0 average degree) | `rej`
+  `tadjall <max_order|->`       -> `d@t=matrix|...`, or `rej`  -/
 open Wire C09
 
 structure St where
@@ -18,6 +23,13 @@ structure St where
 
 def showMap (m : List (Nat × Nat)) : String :=
   showList "," "-" (fun (p : Nat × Nat) => toString p.1 ++ ":" ++ toString p.2) m
+
+def showDict (l : List (Nat × List (List Rat))) : String :=
+  showList "|" "empty" (fun (p : Nat × List (List Rat)) => toString p.1 ++ "=" ++ showRatss p.2) l
+
+def showDict2 (l : List (Nat × List (Nat × List (List Rat)))) : String :=
+  showList "|" "empty" (fun (q : Nat × Nat × List (List Rat)) => toString q.1 ++ "@" ++ toString q.2.1 ++ "=" ++ showRatss q.2.2)
+    (l.flatMap fun p => p.2.map fun tm => (p.1, tm.1, tm.2))
 
 def edges (s : St) : List Edge := s.es.map (·.1)
 
@@ -57,6 +69,21 @@ def step (s : St) : List String → St × String
     match (tensor n.toNat! (edges s) : Option (List (List Nat × Rat))) with
     | none => (s, "rej")
     | some t => (s, showRats (t.map (·.2)))
+  | ["maxord"] => (s, match maxOrder s.es with | none => "rej" | some m => toString m)
+  | ["incall", k] => (s, match incAllOrders (k == "1") s.nodes s.es with | none => "rej" | some l => showDict l)
+  | ["lapall", f] => (s, match lapAllOrders (f == "1") s.nodes s.es with | none => "rej" | some l => showDict l)
+  | ["mlap", sg, ow, dw] =>
+    match rats? sg with
+    | some sig =>
+      match multiorderLaplacian sig (ow == "1") (dw == "1") s.nodes s.es with
+      | none => (s, "rej")
+      | some MultiLap.noMatrix => (s, "zero")
+      | some MultiLap.undefScale => (s, "undef")
+      | some (MultiLap.mat m) => (s, showRatss m)
+    | none => (s, "bad-op")
+  | ["tadjall", mo] =>
+    (s, match temporalAdjAllOrders (if mo == "-" then none else some mo.toNat!) s.recs with
+        | none => "rej" | some l => showDict2 l)
   | ["ttimes"] => (s, showNats (times s.recs))
   | ["tadj", t] => (s, showRatss (temporalAdj s.recs t.toNat!))
   | ["tmap", t] => (s, showMap (mapping (snapshotNodes s.recs t.toNat!)))
